@@ -10,7 +10,7 @@ for d in /tmp/wt-C*/_out/m*; do
   prop=$(echo $d | sed 's/.*wt-\(C[0-9]*\).*/\1/'); m=$(basename $d); id=${prop}_$m
   dd=${DEMODIR[$prop$m]}
   [ -f $d/DEMODIR ] && dd=$(cat $d/DEMODIR)
-  grep -q "^DEMODIR:" $d/README.md && dd=$(grep "^DEMODIR:" $d/README.md | head -1 | sed "s/DEMODIR: *//; s/[` ]//g; s/\/$//")
+  grep -q "DEMODIR:" $d/README.md && dd=$(grep -o "DEMODIR: *[A-Za-z0-9_/.-]*" $d/README.md | head -1 | sed 's/DEMODIR: *//; s/\/$//')
   [ -n "$1" ] && [[ ! "$id" =~ $1 ]] && continue
   if [ -z "$dd" ]; then dd=$(grep -o -i "cop[a-z]* into \`[^\`]*\`" $d/README.md | head -1 | sed 's/.*`\(.*\)`/\1/' | sed 's/\/$//'); fi
   out=/verif/seeded/$id; mkdir -p $out
